@@ -155,6 +155,10 @@ def run(res, tier):
     res.floor("C13.3", len(ck), 25, "construction facts")
     # 4
     txt = facts.ntext(tbf.body(rebuild))
+    tfields = {fl["name"] for fl in facts.cls("TbfTree")["fields"]}
+    for anchor in ("cellBlocks", "particleGroups"):
+        if anchor not in tfields:
+            raise AnalysisBroken("TbfTree has no member '%s' any more: the reset rule must be re-read" % anchor)
     for what in ("cellBlocks.clear()", "particleGroups.clear()", "cellBlocks.resize("):
         res.instance("C13.4.reset", what, facts.loc(rebuild), "present: %s" % (what in txt))
         if what not in txt:
